@@ -346,10 +346,14 @@ theorem delete_removes_object_and_file (st : St) (k : Key) (cascade : Bool) (o :
     · rename_i hc; simp [hc] at hok
     · rename_i hc
       simp only [hc] at hok
-      unfold finishDelete at hok ⊢
       split
-      · rename_i ht; simp [ht] at hok
-      · simp [removeObj, St.keys, St.resolvesService, rmFile, hapi, hkey]
+      · rename_i hr
+        simp only [hr, if_true] at hok
+        unfold finishDelete at hok ⊢
+        split
+        · rename_i ht; simp [ht] at hok
+        · simp [removeObj, St.keys, St.resolvesService, rmFile, hapi, hkey]
+      · rename_i hr; simp [hr] at hok
   · simp [hapi] at hok
 
 /-- Regression for F-C17f (fixed by edf9289): a created and then deleted Service is not resolvable through
@@ -386,23 +390,18 @@ theorem refuse_non_api (st : St) (k : Key) (cascade : Bool) (o : Obj)
 theorem cascade_only_when_asked (st : St) (k : Key) (o : Obj) (ho : st.find k = some o) :
     (children st o.key ≠ [] → deleteObject st k false = (st, .fail)) ∧
     ((deleteObject st k false).1 = st ∨ (deleteObject st k false).1 = removeObj st o) := by
-  have hpos : st.objs.length ≠ 0 := by
-    intro h
-    have : st.objs = [] := List.length_eq_zero_iff.mp h
-    simp [St.find, this] at ho
-  obtain ⟨f, hf⟩ : ∃ f, st.objs.length = f + 1 := ⟨st.objs.length - 1, by omega⟩
   constructor
   · intro hch
     unfold deleteObject
-    rw [ho, hf]
+    rw [ho]
     by_cases hapi : o.api = true
     · simp [hapi, deleteHelper, hch]
     · simp [hapi]
   · unfold deleteObject
-    rw [ho, hf]
+    rw [ho]
     by_cases hapi : o.api = true
     · by_cases hch : children st o.key = []
-      · right; simp [hapi, deleteHelper, finishDelete, hch]
+      · right; simp [hapi, deleteHelper, deleteChildren, finishDelete, hch]
       · left; simp [hapi, deleteHelper, hch]
     · left; simp [hapi]
 
@@ -421,52 +420,94 @@ theorem delete_only_removes (st : St) (k : Key) (cascade : Bool) (thr : Option K
   ⟨(deleteObject_shrunk st k cascade thr).keys, (deleteObject_shrunk st k cascade thr).items,
    (deleteObject_shrunk st k cascade thr).files, (deleteObject_shrunk st k cascade thr).objs⟩
 
-/-- A cascading delete of a runtime-created object whose own deactivation does not fail always succeeds and is
-    complete one level down: the object and EVERY live object that depends on it directly are gone afterwards —
-    also when the dependency graph has cycles (an object visited again further down is skipped there, `busy`,
-    and removed by the call that is under way for it) — except a dependent whose deactivation the environment
-    answers with an exception (`thr`; see `cascade_aborted_dependent_counterexample`, F-C17j: the full statement,
-    every dependent gone whenever success is reported, fails in the model and in the real code).
-    (Spec clause `cascade_complete` demands the transitive closure on the implementation's trace; for the model
-    only this level and `delete_only_removes` are proved.) -/
-theorem cascade_removes_children_partial (st : St) (k : Key) (o : Obj) (thr : Option Key) (ho : st.find k = some o)
-    (hapi : o.api = true) (ht : thr ≠ some k) :
-    (deleteObject st k true thr).2 = .ok ∧ (deleteObject st k true thr).1.has k = false ∧
-      ∀ c ∈ children st k, thr ≠ some c → (deleteObject st k true thr).1.has c = false := by
+/-- A cascade that reports success is complete one level down — for every state, every graph (cycles included: an
+    object visited again further down is skipped there, `busy`, and removed by the call that is under way for it)
+    and whatever deactivation the environment answers with an exception: the object and EVERY live object that
+    depends on it directly are gone.  (Before 0ce9ca7 this needed the exception "except a dependent whose
+    deactivation fails": F-C17j.  Spec clause `cascade_complete` demands the transitive closure on the
+    implementation's trace; for the model this level, `cascade_only_dependents` and `delete_only_removes` are proved.) -/
+theorem cascade_success_complete (st : St) (k : Key) (o : Obj) (thr : Option Key) (ho : st.find k = some o)
+    (hok : (deleteObject st k true thr).2 = .ok) :
+    (deleteObject st k true thr).1.has k = false ∧
+      ∀ c ∈ children st k, (deleteObject st k true thr).1.has c = false := by
   have hkey : o.key = k := find_key st k o ho
-  have ht' : thr ≠ some o.key := by rw [hkey]; exact ht
-  unfold deleteObject
-  rw [ho]
-  simp only [hapi, Bool.not_true, Bool.false_eq_true, if_false]
-  simp only [deleteHelper, Bool.not_true, Bool.and_false, Bool.false_eq_true, if_false, List.contains_nil]
-  refine ⟨?_, ?_, ?_⟩
-  · rw [(finishDelete_removes _ o thr ht').2]; rfl
-  · rw [← hkey]; exact (finishDelete_removes _ o thr ht').1
-  · intro c hc htc
-    by_cases hck : c = o.key
-    · rw [hck]; exact (finishDelete_removes _ o thr ht').1
-    · apply (finishDelete_shrunk _ o thr).has_false
-      apply foldl_children_removed
-      · rw [hkey]; exact hc
-      · simpa using hck
-      · exact htc
+  unfold deleteObject at hok ⊢
+  rw [ho] at hok ⊢
+  by_cases hapi : o.api = true
+  · simp only [hapi, Bool.not_true, Bool.false_eq_true, if_false] at hok ⊢
+    simp only [deleteHelper, Bool.not_true, Bool.and_false, Bool.false_eq_true, if_false, List.contains_nil] at hok ⊢
+    split
+    · rename_i hr
+      simp only [hr, if_true] at hok
+      have hfin : (finishDelete (deleteChildren (fun s co => deleteHelper st.objs.length s co true [o.key] thr)
+          (children st o.key) st).1 o thr).2 = true := by
+        cases h : (finishDelete (deleteChildren (fun s co => deleteHelper st.objs.length s co true [o.key] thr)
+          (children st o.key) st).1 o thr).2
+        · simp [h] at hok
+        · rfl
+      refine ⟨?_, ?_⟩
+      · rw [← hkey]; exact finishDelete_ok_removes _ o thr hfin
+      · intro c hc
+        by_cases hck : c = o.key
+        · rw [hck]; exact finishDelete_ok_removes _ o thr hfin
+        · apply (finishDelete_shrunk _ o thr).has_false
+          apply deleteChildren_removed _ _ _ _ _ _ _ _ _ hr
+          · rw [hkey]; exact hc
+          · simpa using hck
+    · rename_i hr; simp [hr] at hok
+  · simp [hapi] at hok
 
-/-- The unconditional form (no fault): what the theorem was before the fault was modelled. -/
+/-- Without a fault a cascading delete of a runtime-created object always succeeds (and is then complete:
+    `cascade_success_complete`). -/
 theorem cascade_removes_children (st : St) (k : Key) (o : Obj) (ho : st.find k = some o) (hapi : o.api = true) :
     (deleteObject st k true).2 = .ok ∧ (deleteObject st k true).1.has k = false ∧
       ∀ c ∈ children st k, (deleteObject st k true).1.has c = false := by
-  have h := cascade_removes_children_partial st k o none ho hapi (by simp)
-  exact ⟨h.1, h.2.1, fun c hc => h.2.2 c hc (by simp)⟩
+  have hok : (deleteObject st k true).2 = .ok := by
+    unfold deleteObject
+    rw [ho]
+    simp [hapi, deleteHelper_nofault_ok]
+  exact ⟨hok, cascade_success_complete st k o none ho hok⟩
 
-/-- F-C17j (reproduced on the real code, corpus/C17/f_c17j_cascade_aborted_dependent.ops): the deactivation of a
-    dependent fails in the middle of a cascade; `DeleteObjectHelper` ignores the result of the call it made for the
-    dependent (configobjectutility.cpp:351-353), removes the object itself and reports success: the dependent stays
-    behind — registered, deactivated, with its item and its file — and refers to an object that no longer exists. -/
-theorem cascade_aborted_dependent_counterexample :
+/-- A delete that reports FAILURE — refused, or aborted by an exception out of the deactivation of the object or,
+    since 0ce9ca7, of any dependent visited by the cascade — has not removed the object: it is still registered.
+    (With `delete_removes_object_and_file`: the result says what happened to the object, for every state, graph
+    and fault.) -/
+theorem failed_delete_keeps_target (st : St) (k : Key) (cascade : Bool) (thr : Option Key) (o : Obj)
+    (ho : st.find k = some o) (hfail : (deleteObject st k cascade thr).2 = .fail) :
+    (deleteObject st k cascade thr).1.has k = true := by
+  have hkey : o.key = k := find_key st k o ho
+  have hhas : st.has k = true := find_has st k o ho
+  unfold deleteObject at hfail ⊢
+  rw [ho] at hfail ⊢
+  by_cases hapi : o.api = true
+  · simp only [hapi, Bool.not_true, Bool.false_eq_true, if_false] at hfail ⊢
+    simp only [deleteHelper, List.contains_nil, Bool.false_eq_true, if_false] at hfail ⊢
+    split
+    · exact hhas
+    · have hch := deleteChildren_preserves (fun s => s.has k = true)
+        (fun s co => deleteHelper st.objs.length s co cascade [o.key] thr)
+        (fun s co h => deleteHelper_keeps_busy _ s co cascade [o.key] thr k (by simp [hkey]) h)
+        (children st o.key) st hhas
+      split
+      · rename_i hc hr
+        simp only [hc, hr, if_true] at hfail
+        unfold finishDelete at hfail ⊢
+        split
+        · rw [has_true_iff, deactivateObj_keys, ← has_true_iff]; exact hch
+        · rename_i ht; simp [ht] at hfail
+      · exact hch
+  · simpa [hapi] using hhas
+
+/-- Regression for F-C17j (fixed by 0ce9ca7; corpus/C17/fixed_c17j_cascade_aborted_dependent.ops): the deactivation of a
+    dependent fails in the middle of a cascade — the dependent stays (deactivated, with its item and file), and so
+    does the object it refers to, with its item and file; failure is reported.  (Before the fix the object was
+    removed and success reported.) -/
+theorem cascade_aborted_dependent_regression :
     let h : Key := ⟨['H'], ['h']⟩
     let s : Key := ⟨['S'], ['s']⟩
     let st : St := ⟨[⟨h, true, true, ['f']⟩, ⟨s, true, true, ['g']⟩], [h, s], [['f'], ['g']], [(s, h)], []⟩
-    deleteObject st h true (some s) = (⟨[⟨s, true, false, ['g']⟩], [s], [['g']], [], []⟩, .ok) := by decide
+    deleteObject st h true (some s) =
+      (⟨[⟨h, true, true, ['f']⟩, ⟨s, true, false, ['g']⟩], [h, s], [['f'], ['g']], [], []⟩, .fail) := by decide
 
 /-- A deletion aborted by an exception out of the object's deactivation, then tried again (the history of seeded
     change C17-12): for EVERY state and every active runtime object without live dependents, the aborted call
@@ -486,12 +527,12 @@ theorem aborted_delete_then_retry (st : St) (k : Key) (c c' : Bool) (o : Obj) (h
   have hok : (deleteObject (deactivateObj st o) k c').2 = .ok := by
     unfold deleteObject
     rw [hfind]
-    simp [hapi, deleteHelper, finishDelete, hkey, hch']
+    simp [hapi, deleteHelper, deleteChildren, finishDelete, hkey, hch']
   have hrm := delete_removes_object_and_file (deactivateObj st o) k c' _ none hfind hok
   refine ⟨?_, ?_, rfl, rfl, hok, hrm.1, hrm.2.1, hrm.2.2.1⟩
   · unfold deleteObject
     rw [ho]
-    simp [hapi, deleteHelper, finishDelete, hkey, hch, hact]
+    simp [hapi, deleteHelper, deleteChildren, finishDelete, hkey, hch, hact]
   · have : k ∈ (deactivateObj st o).keys := by
       rw [deactivateObj_keys]
       have hm := List.mem_of_find?_eq_some ho
@@ -583,7 +624,7 @@ theorem noncascading_delete_meets_spec (st : St) (k : Key) (hnd : st.keys.Nodup)
     · have hcr := createdOf_contains st k o ho hapi
       by_cases hch : children st k = []
       · have hst : deleteObject st k false = (removeObj st o, .ok) := by
-          simp [deleteObject, ho, hapi, deleteHelper, finishDelete, hkey, hch]
+          simp [deleteObject, ho, hapi, deleteHelper, deleteChildren, finishDelete, hkey, hch]
         simp only [hst] at hnd' hreg
         unfold specDelete
         simp only [hnd', hreg, hhas, hst, hfind, observeObj, hapi, hcr, kids_eq_children, hch]
@@ -682,7 +723,7 @@ theorem aborted_delete_meets_spec (st : St) (k : Key) (o : Obj) (hnd : st.keys.N
       (createdOf st) (fileOfSt st) st.deps (observe (deactivateObj st o)) (some k) = none := by
   have hkey := find_key st k o ho
   have hst : deleteObject st k false (some k) = (deactivateObj st o, .fail) := by
-    simp [deleteObject, ho, hapi, deleteHelper, finishDelete, hkey, hch, hact]
+    simp [deleteObject, ho, hapi, deleteHelper, deleteChildren, finishDelete, hkey, hch, hact]
   refine ⟨hst, ?_⟩
   have hnd' : nodupKeys ((observe (deactivateObj st o)).objs.map (·.key)) = true := by
     rw [observe_keys, deactivateObj_keys]; exact nodupKeys_of_nodup _ hnd
